@@ -2,7 +2,7 @@ CONSTANTS
   H = 4
   NWit = 2
   MaxCalls = 1
-  PrimaryPersonas = {"honest", "weak3", "lunatic3", "future3", "flip2", "weak4bad"}
+  PrimaryPersonas = {"honest", "weak3", "lunatic3", "future3", "flip2", "weak4bad", "weak4hole"}
   WitnessPersonas = {"honest", "weak3", "lunatic3", "future3", "silent"}
   Modes = {"skip"}
   Roots = {1, 2, 3}
@@ -18,6 +18,7 @@ CONSTANTS
   Weak_BackwardsUnbound = FALSE
   Weak_ReplacementHashUnchecked = TRUE
   Weak_PromotedWitnessStays = FALSE
+  Weak_PartialTraceOnBenignError = FALSE
 INIT Init
 NEXT Next
 INVARIANTS TrustRootOnly StoreSound WitnessConfirmed IndependentWitness NoConfirmationFromSilence AttackReported AttackStoresNothing StoreMonotone
